@@ -329,6 +329,7 @@ func paillierNInst(bits int) *niInst {
 		if err != nil {
 			return nil, err
 		}
+		runLate(ctx)
 		proof, _, err := pr.Prove()
 		if err != nil {
 			return nil, err
@@ -347,6 +348,7 @@ func paillierNInst(bits int) *niInst {
 		if sel.kind != 0 {
 			k = keys[1]
 		}
+		runLate(ctx) // one-shot verifier: "after construction" coincides with "before Verify"
 		return pailliern.Verify(ctx.SessionID(), ctx.Transcript(), k.Public(), p)
 	}
 	n.recode = func(_ compiler.Name, proof []byte) ([]byte, error) {
